@@ -137,6 +137,7 @@ def _topo(k, edges):
 
 
 def real_headers(rng, names, edges, funcs_only):
+    funcs_only, enum_only = funcs_only if isinstance(funcs_only, tuple) else (funcs_only, set())
     """One header per library.  Layout: an independent base class first, then the includes of every
     dependency, then the classes/typedefs that realise the edges -- this supports arbitrary graphs, cycles included.
     In acyclic graphs a class may also derive from (or name) a *derived* class of the dependency, so that
@@ -151,7 +152,9 @@ def real_headers(rng, names, edges, funcs_only):
         U = names[u].capitalize()
         out = ["#ifndef %s_H" % U.upper(), "#define %s_H" % U.upper()]
         deps = sorted(v for (a, v) in edges if a == u)
-        if u in funcs_only:
+        if u in enum_only:
+            out += ["__published:", "enum %s_Enum { %s_a = 1, %s_b = 2 };" % (U, U, U)]
+        elif u in funcs_only:
             out += ["__published:", "int %s_only_function(int a);" % names[u]]
         else:
             out += ["class %s_K0 {" % U, "__published:", "  %s_K0();" % U, "  int get_%s() const;" % names[u], "};"]
@@ -173,6 +176,7 @@ def real_headers(rng, names, edges, funcs_only):
 
 def synth_dbs(rng, names, edges, funcs_only):
     """Synthetic databases for the same graph shape (cheap, allows larger graphs)."""
+    funcs_only, enum_only = funcs_only if isinstance(funcs_only, tuple) else (funcs_only, set())
     k = len(names)
     dbs = []
     for u in range(k):
@@ -188,7 +192,13 @@ def synth_dbs(rng, names, edges, funcs_only):
                     "outer_class": 0, "atomic_token": 0, "wrapped_type": wrapped, "array_size": 1, "constructors": [], "destructor": 0,
                     "elements": [], "methods": [], "make_seqs": [], "casts": [], "derivations": [{"flags": 0, "base": b, "upcast": 0, "downcast": 0} for b in derivs],
                     "enum_values": [], "nested_types": [], "comment": b""}
-        if u not in funcs_only:
+        if u in enum_only:
+            fn = {}
+            idx = 1
+            types[idx] = mk("%s_Enum" % U, "%s_Enum" % U, 0x1 | 0x80000 | F.TF_FULLY_DEFINED)
+            types[idx]["enum_values"] = [{"name": b"a", "scoped_name": b"a", "comment": b"", "value": 1}]
+            idx += 1
+        elif u not in funcs_only:
             types[idx] = mk("%s_K0" % U, "%s_K0" % U, 0x1 | 0x800 | F.TF_FULLY_DEFINED)
             idx += 1
         for n, v in enumerate(deps):
@@ -230,11 +240,12 @@ def generate(ctx):
             perms = rng.sample(perms, 8)
         fault = None
         if rng.chance(1, 4):
-            fault = {"lib": rng.below(k), "kind": rng.choice(["missing", "torn", "torn", "version", "isdir", "empty"]), "frac": rng.range(1, 99), "stale": rng.chance(1, 2)}
+            fault = {"lib": rng.below(k), "kind": rng.choice(["missing", "torn", "torn", "version", "version", "isdir", "empty"]), "frac": rng.range(1, 99), "stale": rng.chance(1, 2),
+                     "text": rng.choice(["3 4", "4 0", "2 3", "1 0", "2 9", "3 99"])}
         elif rng.chance(1, 8):
             fault = {"lib": None, "kind": "none", "stale": True}
         plans.append({"id": i, "variant": variant, "k": k, "graph": kind, "gseed": rng.next(), "perms": [list(p) for p in perms], "fault": fault,
-                      "funcs_only": [x for x in range(k) if rng.chance(1, 10)], "extra": rng.choice([[], [], ["-python"], ["-track-interpreter"], ["-import", "other.mod"], ["-init", "extra_init"]])})
+                      "funcs_only": [x for x in range(k) if rng.chance(1, 10)], "enum_only": [x for x in range(k) if rng.chance(1, 10)], "extra": rng.choice([[], [], ["-python"], ["-track-interpreter"], ["-import", "other.mod"], ["-init", "extra_init"]])})
     return plans
 
 
@@ -315,9 +326,11 @@ def execute(plan):
     rng = Rng(plan["gseed"])
     k = plan["k"]
     names = lib_names(rng, k)
-    funcs_only = set(plan["funcs_only"])
-    # a library that contributes only free functions takes part in no edge
-    edges = set(e for e in gen_graph(rng, k, plan["graph"]) if e[0] not in funcs_only and e[1] not in funcs_only)
+    enum_only = set(plan.get("enum_only", []))
+    funcs_only = set(plan["funcs_only"]) - enum_only
+    # a library that contributes only free functions, or only a published enum, takes part in no edge
+    edges = set(e for e in gen_graph(rng, k, plan["graph"]) if not ({e[0], e[1]} & (funcs_only | enum_only)))
+    funcs_only = (funcs_only, enum_only)
     root = runner.fresh_dir("ms-%d-%016x" % (os.getpid(), fnv1a(json.dumps(plan, sort_keys=True))))
     env = {"PATH": "/usr/bin:/bin", "LC_ALL": "C", "SOURCE_DATE_EPOCH": "1"}
     violations, harness_faults = [], []
@@ -370,7 +383,7 @@ def execute(plan):
                 a, _, rest = data.partition(b"\n")
                 b, _, rest = rest.partition(b"\n")
                 with open(p, "wb") as f:
-                    f.write(a + b"\n3 4\n" + rest)
+                    f.write(a + b"\n" + fault.get("text", "3 4").encode() + b"\n" + rest)
             elif fault["kind"] == "torn":
                 cut = max(1, len(data) * fault["frac"] // 100)
                 # a cut that removes only trailing whitespace is not a fault
@@ -400,6 +413,8 @@ def execute(plan):
             if r.crashed:
                 violations.append({"property": "C16", "class": "crash-or-hang", "key": {"kind": "timeout" if r.timeout else "crash"},
                                    "msg": "interrogate_module %s: %s" % (r.outcome(), where)})
+                if r.timeout:
+                    break       # one hang per scenario is enough; the other argument orders would each cost the full time limit
                 continue
             if load_fault:
                 verdicts.add("fault")
